@@ -266,11 +266,19 @@ def main(argv=None):
     by_h = {}
     for h, r in violations:
         by_h.setdefault(h.name, []).append(r)
-    clean = {o['name'] for o in outs if not o['errors'] and not any(r['status'] == 'refuted' for r in o['results'])}
+    def _strip(n):
+        return n[1:].partition(':')[2] if n.startswith('@') else n
+    def _counts(n):       # does this clause belong to the property being checked?
+        return not n.startswith('@') or a.prop in n[1:].partition(':')[0].split(',')
+    clean = {o['name'] for o in outs if not o['errors'] and not any(
+        r['status'] == 'refuted' and _counts(r['name']) and finding_for(findings, a.prop, o['name'], _strip(r['name'])) is None
+        for r in o['results'])}
     demoted = set()
     for hn, rs in by_h.items():
         h = byname[hn]
-        if h.fallback and all(aux.search(r['name']) for r in rs):
+        # once a loop-contract obligation is refuted, what the harness derives after the loop rests on a contract that no
+        # longer describes the code: all of its refutations are then referred to the stand-in
+        if h.fallback and any(aux.search(r['name']) for r in rs):
             fb = [n for n in byname if re.search(h.fallback, n)]
             if fb and all(n in clean for n in fb):
                 demoted.add(hn)
